@@ -201,7 +201,7 @@ def main():
         }],
         "checks": checks,
         "not_applicable": na,
-        "notes": "All checks: exit 0 clean, exit 1 with VIOLATION line, exit 2 INFRA (never a verdict). VERIF_SEED, VERIF_TIER, VERIF_BUDGET_S honoured.",
+        "notes": "All checks: exit 0 clean, exit 1 with VIOLATION line, exit 2 INFRA (never a verdict). A run that ends with tasks waiting for library locks is <prop>.stuck, a run that never ends (library loop without a scheduling point) is <prop>.livelock after 40 s of real time. VERIF_SEED, VERIF_TIER, VERIF_BUDGET_S honoured.",
     }
     with open(os.path.join(VERIF, "MANIFEST.json"), "w") as f:
         json.dump(m, f, indent=1)
